@@ -60,6 +60,12 @@ pub open spec fn coincides(out: SemanticToken, token: Token, prev: Position, tex
     decode(prev, out) == pos_of(token.range.start, text) && out.length == utf16_units(token.range.start, token.range.end, text)
 }
 
+//@extract spl_frontend/src/tokens.rs :: impl TokenType :: fn is_symbol
+//@ ret b
+//@ sig
+        ensures b == (self is LParen || self is RParen || self is LBracket || self is RBracket || self is LCurly || self is RCurly || self is Eq || self is Neq || self is Lt || self is Le
+            || self is Gt || self is Ge || self is Assign || self is Colon || self is Comma || self is Semic || self is Plus || self is Minus || self is Times || self is Divide), //# TokenType::is_symbol::the_twenty_symbols
+//@end
 //@extract spl_frontend/src/tokens.rs :: impl TokenType :: fn is_keyword
 //@ ret b
 //@ sig
